@@ -23,9 +23,9 @@ import (
 
 // well-known mainnet event topics (fixed vectors for both Keccak implementations)
 var knownTopics = map[string]string{
-	"Transfer(address,address,uint256)":                "ddf252ad1be2c89b69c2b068fc378daa952ba7f163c4a11628f55a4df523b3ef",
-	"Approval(address,address,uint256)":                "8c5be1e5ebec7d5bd14f71427d1e84f3dd0314c0f7b2291e5b200ac8c7c3b925",
-	"ApprovalForAll(address,address,bool)":             "17307eab39ab6107e8899845ad3d59bd9653f200f220920489ca2b5937696c31",
+	"Transfer(address,address,uint256)":                     "ddf252ad1be2c89b69c2b068fc378daa952ba7f163c4a11628f55a4df523b3ef",
+	"Approval(address,address,uint256)":                     "8c5be1e5ebec7d5bd14f71427d1e84f3dd0314c0f7b2291e5b200ac8c7c3b925",
+	"ApprovalForAll(address,address,bool)":                  "17307eab39ab6107e8899845ad3d59bd9653f200f220920489ca2b5937696c31",
 	"Swap(address,uint256,uint256,uint256,uint256,address)": "d78ad95fa46c994b6551d0da85fc275fe613ce37657fb8d5e3d130840159d822",
 	"OrderFulfilled(bytes32,address,address,address,(uint8,address,uint256,uint256)[],(uint8,address,uint256,uint256,address)[])": "9d9af8e38d66c62e2c12f0225249fd9d721c54b83f48d9352c97c6cacdcb6f31",
 	"": "c5d2460186f7233c927e7db2dcc703c0e500b653ca82273b7bfad8045d85a470",
